@@ -780,7 +780,7 @@ def run(ctx):
         n_noinv, n_inv, n_int, maxlen, want, budget, branch = 30, 18, 30, 4, 4, 200, 3
     else:
         n_noinv, n_inv, n_int, maxlen, want, budget, branch = 300, 200, 300, 5, 6, 500, 3
-    n_perm, n_perm_ctrl = (24, 6) if ctx.quick else (240, 60)
+    n_perm, n_perm_ctrl = (16, 4) if ctx.quick else (160, 40)
     sources = [("hand", hp, None) for hp in hand_corpus()]
     noinv = dict(invariants=False, bounded=False, max_actions=3)
     sources += [("noinv", None, dict(noinv)) for _ in range(n_noinv)]
